@@ -137,7 +137,9 @@ Record dinv (s : state) : Prop := mkD {
             (j <= flushed (st s v))%nat;
   (* an unflushed entry was appended by the node itself, as leader of that term *)
   d_unfl : forall n j e, nth_error (log (st s n)) j = Some e ->
-             (flushed (st s n) <= j)%nat -> exists L, In (eterm e, n, L) (elected s)
+             (flushed (st s n) <= j)%nat -> exists L, In (eterm e, n, L) (elected s);
+  (* the first log of a term: the election log plus the no-op *)
+  d_elcr : forall t n L, In (t, n, L) (elected s) -> In (L ++ [noop t]) (created s)
 }.
 
 End Defs.
